@@ -59,7 +59,7 @@ CHECKS = {
          "DESIGN.md section 3 C10; notes/report-C10.md"),
  "C17": ("exploration",
          "property-based testing of rendered reports with a layout parser as oracle: exhaustive cube around the error column + generated failing (input, target) pairs x renderers (Display, render_with_options x formatters x SnippetMode, miette handlers)",
-         "2365 reflecting documents (escapes, raw controls, wide and bidi text reflected through unknown field / variant, duplicate key, invalid type, custom messages, tags, validation paths, alias errors), an exhaustive cube of 15840 cases (character class x prefix x suffix x radius x context shape) around the error column, 10-20 k character lines, inputs beyond the 3 KiB reader window, two-window alias reports (also with the definition site beyond column 65535), token soup and mutated seeds; for every rendering: no panic, no C0 (except newline / tab) / DEL / C1, at most 5 consecutive source lines within [L-2, L+2] containing L, each shown line a fragment of the input line with that number, cropping within the documented radius (context lines left of the window included), caret under the reported column (display columns), two leading byte order marks (one ignored, one counted); the source exposed to miette is the input line by line (CRLF breaks leave no visible character). Exploration.",
+         "2365 reflecting documents (escapes, raw controls, wide and bidi text reflected through unknown field / variant, duplicate key, invalid type, custom messages, tags, validation paths, alias errors), an exhaustive cube of 15840 cases (character class x prefix x suffix x radius x context shape) around the error column, 10-20 k character lines, inputs beyond the 3 KiB reader window, two-window alias reports (also with the definition site beyond column 65535), token soup and mutated seeds; for every rendering: no panic, no C0 (except newline / tab) / DEL / C1, at most 5 consecutive source lines within [L-2, L+2] containing L, each shown line a fragment of the input line with that number, cropping within the documented radius (context lines left of the window included), caret under the reported column (display columns), two leading byte order marks (one ignored, one counted); the source exposed to miette is the input line by line (CRLF breaks leave no visible character) and a miette label starts at the located byte (end of input included); from_multiple errors carry the snippet like from_str errors. Exploration.",
          "layout facts are taken from rustdoc / tests and self-checked against annotate-snippets at start-up; undocumented layout (lone CR, multi-line messages, implicit last empty line) is not judged; the harness' custom formatter / localizer is clean by construction; miette's own graphical handler is not run on lines longer than 60000 bytes (third-party formatting-width panic); open findings: marker in a trimmed margin, lone-CR line breaks, second window taken from a region cropped around the first location (lines over 4 KiB; keyed on the failure so that panics on those cases still count)",
          "DESIGN.md section 3 C17; notes/report-C17.md"),
  "C13": ("exploration",
